@@ -48,6 +48,7 @@ type CallOpts struct {
 	ContentType string
 	Headers     [][2]string
 	Helpers     [][2]string
+	Reuse       bool // the option VALUES are created once per (service, option, argument) and reused by every call that asks for them
 }
 
 // Pkg is what the generated main registers for each emitted package.
